@@ -234,6 +234,11 @@ func (a *Agent) hooks(proc *process.Process, sym *symbol.Symbol, in *port.InPort
 	inboundHook := packet.HookFunc(func(pck *packet.Packet) {
 		a.mu.Lock()
 
+		if _, ok := a.processes[proc.ID()]; !ok {
+			a.mu.Unlock()
+			return
+		}
+
 		var frame *Frame
 		for _, f := range a.frames[proc.ID()] {
 			if f.Symbol == sym && f.InPort == in && f.OutPort == out && f.InPck == nil {
@@ -265,6 +270,11 @@ func (a *Agent) hooks(proc *process.Process, sym *symbol.Symbol, in *port.InPort
 
 	outboundHook := packet.HookFunc(func(pck *packet.Packet) {
 		a.mu.Lock()
+
+		if _, ok := a.processes[proc.ID()]; !ok {
+			a.mu.Unlock()
+			return
+		}
 
 		var frame *Frame
 		for _, f := range a.frames[proc.ID()] {
